@@ -198,6 +198,22 @@ class Interp:
             self.fail("subscribe-message-count", repr(sent))
             return
         self.handlers.append(h)
+        if behaviour == "unsub-on-subscribed":
+            # application code that unsubscribes as soon as the subscription is confirmed (a callback on the subscribe result)
+            import txaio
+            h.early = {"exc": None, "ran": False}
+
+            def on_confirmed(sub):
+                h.early["ran"] = True
+                h.sub = sub
+                try:
+                    f2 = sub.unsubscribe()
+                    if f2 is not None and txaio.is_future(f2):
+                        txaio.add_callbacks(f2, lambda r: None, lambda f: None)
+                except Exception as e:
+                    h.early["exc"] = e
+                return sub
+            txaio.add_callbacks(fut, on_confirmed, None)
         h.track = self.w.track(fut)
         self.pending_sub.append((sent[0].request, h, topic))
 
@@ -218,9 +234,31 @@ class Interp:
             self.next_sid += 1
             sid = self.next_sid
         # capture the Subscription object through a fresh tracker on the session's table
+        n_sent = len(self.w.t.sent)
         err = self.w.feed(M.Subscribed(rid, sid))
         if err is not None:
             self.fail("subscribed-raised|" + exc_key(err), repr(err))
+            return
+        if getattr(h, "early", None) is not None:
+            # attached and removed again at once: it is never part of the model; UNSUBSCRIBE goes out iff no other handler is on that id
+            if not h.early["ran"]:
+                self.fail("subscribe-result-callback-not-run", "")
+                return
+            if h.early["exc"] is not None:
+                self.fail("unsubscribe-in-subscribe-callback-raised|" + exc_key(h.early["exc"]), repr(h.early["exc"]))
+                return
+            h.unsubscribed = True
+            sent = self.w.t.sent[n_sent:]
+            if not self.model.get(sid):
+                if len(sent) != 1 or type(sent[0]).__name__ != "Unsubscribe" or sent[0].subscription != sid:
+                    self.fail("unsubscribe-not-sent-for-last-handler", "sid %d (unsubscribed in the subscribe callback): sent %r" % (sid, [type(m).__name__ for m in sent]))
+                else:
+                    self.inflight[sid] = sent[0].request
+                    self.unsub_reqs.append((sent[0].request, sid))
+                    self.model.setdefault(sid, [])
+            elif sent:
+                self.fail("unsubscribe-sent-while-handlers-remain", "sid %d still has %d handlers; sent %r" % (sid, len(self.model[sid]), [type(m).__name__ for m in sent]))
+            self.saw_mutation_between_events = True
             return
         subs = self.s._subscriptions.get(sid) if hasattr(self.s, "_subscriptions") else None
         tr = getattr(h, "track", None)
@@ -420,7 +458,7 @@ def make_machine_factory(col):
                 self.i.apply(step)
 
             @rule(topic=topics, kind=st.sampled_from(["plain", "plain", "details", "details_arg", "object", "object-opts"]),
-                  behaviour=st.sampled_from(["return", "return", "raise", "pending", "unsub-self", "unsub-next"]))
+                  behaviour=st.sampled_from(["return", "return", "raise", "pending", "unsub-self", "unsub-next", "unsub-on-subscribed"]))
             def subscribe(self, topic, kind, behaviour):
                 self.ap("subscribe", topic, kind, behaviour)
 
